@@ -425,7 +425,13 @@ func runC10(ctx *Ctx) error {
 			ctx.Res.Count("roundtrip")
 			out, _ := resp["out"].(string)
 			if out == "" || !jsonEqual(out, string(ib)) {
-				ctx.Res.Violate("roundtrip:"+sigm, fmt.Sprintf("order %v: instance %s comes back as %v", pm, ib, Canon(resp)), replay)
+				kind := "value-changed"
+				if _, isErr := resp["unmarshal_err"]; isErr {
+					kind = "unmarshal-error"
+				} else if out != "" && !strings.Contains(out, "extra_key") && exp.Addl != "" {
+					kind = "additional-property-lost"
+				}
+				ctx.Res.Violate("roundtrip:"+sigm+":"+kind, fmt.Sprintf("order %v: instance %s comes back as %v", pm, ib, Canon(resp)), replay)
 				break
 			}
 		}
